@@ -400,7 +400,7 @@ type analyser struct {
 	changed   bool
 	impl      map[string][]*types.Func // method name -> repository methods
 	callFun   map[ast.Expr]bool        // expressions in call position
-	freshUse map[*ast.Ident]bool // uses of a variable dominated, in the same block, by an assignment of a fresh value to it
+	freshUse  map[*ast.Ident]bool      // uses of a variable dominated, in the same block, by an assignment of a fresh value to it
 	recording bool
 }
 
@@ -2185,4 +2185,205 @@ func (a *analyser) prepass(body ast.Node) {
 		}
 		return true
 	})
+}
+
+// prepassFresh: the one piece of flow sensitivity.  After a statement `x = <fresh>` directly in
+// a block (x a local variable or parameter; <fresh> = make / new / a literal without elements /
+// nil / a local variable that only ever holds such values), the uses of x in the following
+// statements of the same block, up to the next statement that assigns x again, see the fresh
+// value whatever path is taken (the block is straight-line at its own level, and leaving it
+// leaves the region).  Not applied if the function uses goto, takes the address of x, or
+// assigns x inside a function literal.
+func (a *analyser) prepassFresh(body *ast.BlockStmt) {
+	hasGoto := false
+	addrTaken := map[types.Object]bool{}
+	assigned := map[types.Object][]ast.Expr{} // every right-hand side assigned to a variable (nil = not a plain value)
+	litDepth := 0
+	var scan func(n ast.Node) bool
+	scan = func(n ast.Node) bool {
+		switch x := n.(type) {
+		case *ast.BranchStmt:
+			if x.Tok == token.GOTO {
+				hasGoto = true
+			}
+		case *ast.UnaryExpr:
+			if x.Op == token.AND {
+				if id, ok := x.X.(*ast.Ident); ok {
+					if o := a.obj(id); o != nil {
+						addrTaken[o] = true
+					}
+				}
+			}
+		case *ast.FuncLit:
+			litDepth++
+			ast.Inspect(x.Body, scan)
+			litDepth--
+			return false
+		case *ast.AssignStmt:
+			for i, l := range x.Lhs {
+				if id, ok := l.(*ast.Ident); ok {
+					if o := a.obj(id); o != nil {
+						var rhs ast.Expr
+						if len(x.Lhs) == len(x.Rhs) && (x.Tok == token.ASSIGN || x.Tok == token.DEFINE) {
+							rhs = x.Rhs[i]
+						}
+						assigned[o] = append(assigned[o], rhs)
+						if litDepth > 0 {
+							addrTaken[o] = true
+						}
+					}
+				}
+			}
+		case *ast.ValueSpec:
+			for i, nm := range x.Names {
+				if o := a.info.Defs[nm]; o != nil {
+					if i < len(x.Values) {
+						assigned[o] = append(assigned[o], x.Values[i])
+					} else if len(x.Values) > 0 {
+						assigned[o] = append(assigned[o], nil)
+					}
+				}
+			}
+		case *ast.RangeStmt:
+			for _, e := range []ast.Expr{x.Key, x.Value} {
+				if id, ok := e.(*ast.Ident); ok {
+					if o := a.obj(id); o != nil {
+						assigned[o] = append(assigned[o], nil)
+					}
+				}
+			}
+		case *ast.IncDecStmt:
+			if id, ok := x.X.(*ast.Ident); ok {
+				if o := a.obj(id); o != nil {
+					assigned[o] = append(assigned[o], nil)
+				}
+			}
+		}
+		return true
+	}
+	ast.Inspect(body, scan)
+	if hasGoto {
+		return
+	}
+	syntacticallyFresh := func(e ast.Expr) bool {
+		switch x := e.(type) {
+		case *ast.CallExpr:
+			if id, ok := x.Fun.(*ast.Ident); ok {
+				if _, isB := a.info.Uses[id].(*types.Builtin); isB && (id.Name == "make" || id.Name == "new") {
+					return true
+				}
+			}
+		case *ast.CompositeLit:
+			return len(x.Elts) == 0
+		case *ast.Ident:
+			if _, isNil := a.info.Uses[x].(*types.Nil); isNil {
+				return true
+			}
+		}
+		return false
+	}
+	var fresh func(e ast.Expr, depth int) bool
+	fresh = func(e ast.Expr, depth int) bool {
+		if e == nil {
+			return false
+		}
+		if syntacticallyFresh(e) {
+			return true
+		}
+		if id, ok := e.(*ast.Ident); ok && depth < 3 {
+			o := a.obj(id)
+			v, isVar := o.(*types.Var)
+			if !isVar || a.isPkgLevel(o) || addrTaken[o] || len(assigned[o]) == 0 || !plainContainer(o.Type()) {
+				return false
+			}
+			// a parameter or receiver holds the caller's value on entry
+			if _, tainted := a.taint[v]; tainted {
+				return false
+			}
+			for _, r := range assigned[o] {
+				if !fresh(r, depth+1) {
+					return false
+				}
+			}
+			return true
+		}
+		return false
+	}
+	assignsTo := func(n ast.Node, o types.Object) bool {
+		found := false
+		ast.Inspect(n, func(m ast.Node) bool {
+			switch y := m.(type) {
+			case *ast.AssignStmt:
+				for _, l := range y.Lhs {
+					if id, ok := l.(*ast.Ident); ok && a.obj(id) == o {
+						found = true
+					}
+				}
+			case *ast.RangeStmt:
+				for _, e := range []ast.Expr{y.Key, y.Value} {
+					if id, ok := e.(*ast.Ident); ok && a.obj(id) == o {
+						found = true
+					}
+				}
+			case *ast.IncDecStmt:
+				if id, ok := y.X.(*ast.Ident); ok && a.obj(id) == o {
+					found = true
+				}
+			}
+			return !found
+		})
+		return found
+	}
+	doList := func(list []ast.Stmt) {
+		for i, st := range list {
+			as, ok := st.(*ast.AssignStmt)
+			if !ok || as.Tok != token.ASSIGN || len(as.Lhs) != 1 || len(as.Rhs) != 1 {
+				continue
+			}
+			id, ok := as.Lhs[0].(*ast.Ident)
+			if !ok {
+				continue
+			}
+			o := a.obj(id)
+			if o == nil || a.isPkgLevel(o) || addrTaken[o] || !plainContainer(o.Type()) || !fresh(as.Rhs[0], 0) {
+				continue
+			}
+			for j := i + 1; j < len(list); j++ {
+				if assignsTo(list[j], o) {
+					break
+				}
+				ast.Inspect(list[j], func(m ast.Node) bool {
+					if u, ok := m.(*ast.Ident); ok && a.info.Uses[u] == o {
+						a.freshUse[u] = true
+					}
+					return true
+				})
+			}
+		}
+	}
+	ast.Inspect(body, func(n ast.Node) bool {
+		switch x := n.(type) {
+		case *ast.BlockStmt:
+			doList(x.List)
+		case *ast.CaseClause:
+			doList(x.Body)
+		case *ast.CommClause:
+			doList(x.Body)
+		}
+		return true
+	})
+}
+
+// plainContainer: a slice, map or pointer whose elements hold no references themselves (so a
+// fresh one cannot be made to hold shared memory by storing into it).
+func plainContainer(t types.Type) bool {
+	switch u := t.Underlying().(type) {
+	case *types.Slice:
+		return !isRefType(u.Elem())
+	case *types.Map:
+		return !isRefType(u.Elem()) && !isRefType(u.Key())
+	case *types.Pointer:
+		return !isRefType(u.Elem())
+	}
+	return false
 }
